@@ -31,3 +31,7 @@ def run(ctx, rep):
     C.check_chart_init(r6)
     r5 = rep.rule("passthrough", "from_filepath passes the selection unchanged", floor=2)
     C.check_reading(r5)
+    rd = rep.rule("defaults", "an omitted selection is None (= all tracks) in both entry points", floor=2)
+    from .lib import check_param_defaults
+    check_param_defaults(ctx, rd, "chartparse.chart.Chart.from_file", {"want_tracks": None})
+    check_param_defaults(ctx, rd, "chartparse.chart.Chart.from_filepath", {"want_tracks": None})
